@@ -223,6 +223,11 @@ def run_coverage(ck, prog, fi, rule, make_args, n_time, target_pred, label, scal
             got |= cells
             n_masks += 1
             base = base.args[1] if t[3] == "true" else base.args[2]
+        # a result that IS a freshly made all-zero array (np.zeros / np.zeros_like, never stored into): every cell is zero
+        for sym_, fill_, dims_, _node in getattr(ev, "fresh_arrays", []):
+            if base == sym_ and fill_ == 0 and not [t for t in ev.trace if t[0] == "store" and getattr(t[1], "expr", None) == sym_]:
+                import itertools as _it
+                got |= {(t_, e_) for t_ in range(n_time) for e_ in _it.product(*[range(k) for k in sample_shape])}
         stores = [t for t in ev.trace if t[0] == "store" and target_pred(t[1]) and (t[1].expr == base or base.has(t[1].expr))]
         for _, arr, idx, val, node in stores:
             if bad_store:
